@@ -460,6 +460,41 @@ func builtinTypes(p *pkgInfo, varName string) ([]string, error) {
 	return nil, fmt.Errorf("the init() that fills %s was not found", varName)
 }
 
+// timeCaseGuarded reports whether, in method recv.name, the type-switch case for typ (time.Time / *time.Time)
+// starts with `if <x>.h.timeBuiltin { ... } else { ... }` (the builtin shortcut honours TimeNotBuiltin).
+func timeCaseGuarded(p *pkgInfo, recv, name, typ string) (bool, error) {
+	fd := findFunc(p, recv, name)
+	if fd == nil {
+		return false, fmt.Errorf("%s.%s not found", recv, name)
+	}
+	found, guarded := false, false
+	ast.Inspect(fd.Body, func(n ast.Node) bool {
+		ts, ok := n.(*ast.TypeSwitchStmt)
+		if !ok {
+			return true
+		}
+		for _, st := range ts.Body.List {
+			cc, ok := st.(*ast.CaseClause)
+			if !ok || len(cc.List) != 1 || exprString(cc.List[0]) != typ {
+				continue
+			}
+			found = true
+			if len(cc.Body) == 1 {
+				if is, ok := cc.Body[0].(*ast.IfStmt); ok && is.Init == nil && is.Else != nil {
+					if se, ok := is.Cond.(*ast.SelectorExpr); ok && se.Sel.Name == "timeBuiltin" {
+						guarded = true
+					}
+				}
+			}
+		}
+		return true
+	})
+	if !found {
+		return false, fmt.Errorf("%s.%s: no type-switch case for %s", recv, name, typ)
+	}
+	return guarded, nil
+}
+
 func coqStrings(xs []string) string {
 	q := make([]string, len(xs))
 	for i, x := range xs {
@@ -537,6 +572,16 @@ func genChoice(p *pkgInfo) (string, error) {
 	b.WriteString("(* the checkExt argument passed by encoder.fn, encoder.fnNoExt, decoder.fn, decoder.fnNoExt *)\n")
 	b.WriteString(cs.String())
 	b.WriteString("\n(* the types coded by the builtin type-switch shortcut (typeInfo.flagEncBuiltin / flagDecBuiltin, si.encBuiltin /\n   si.decBuiltin): the lists in the init() of encode.base.go and decode.base.go; a pointer entry stands for its element *)\n")
+	eg, err := timeCaseGuarded(p, "encoder", "encodeBuiltin", "time.Time")
+	if err != nil {
+		return "", err
+	}
+	dg, err := timeCaseGuarded(p, "decoder", "decode", "*time.Time")
+	if err != nil {
+		return "", err
+	}
+	b.WriteString("(* does the time.Time case of encoder.encodeBuiltin / the *time.Time case of decoder.decode start with\n   `if h.timeBuiltin { native } else { the chosen function }` ? *)\n")
+	fmt.Fprintf(&b, "Definition enc_builtin_time_guarded : bool := %v.\nDefinition dec_builtin_time_guarded : bool := %v.\n", eg, dg)
 	b.WriteString("Definition enc_builtin_types : list string := " + coqStrings(encB) + ".\n")
 	b.WriteString("Definition dec_builtin_types : list string := " + coqStrings(decB) + ".\n")
 	return b.String(), nil
